@@ -9,6 +9,7 @@ import (
 	"github.com/arr-ai/arrai/pkg/arraictx"
 	"github.com/arr-ai/arrai/rel"
 	"github.com/arr-ai/arrai/syntax"
+	"github.com/arr-ai/frozen"
 	"github.com/arr-ai/wbnf/parser"
 	"github.com/pkg/errors"
 )
@@ -215,11 +216,21 @@ func parseReturnPayload(ctx context.Context, payload string, appName []string) (
 	if v := t.MustGet("status"); v.IsTrue() {
 		status = v.String()
 	}
+	// An attribute given twice with different values has no single value.
+	nvp := t.MustGet("nvp").Export(ctx)
+	if entries, ok := nvp.(frozen.Map); ok {
+		for i := entries.Range(); i.Next(); {
+			k, v := i.Entry()
+			if _, ok := v.(rel.Value); !ok {
+				return StatementReturn{}, fmt.Errorf("return payload %q: attribute %v has more than one value", payload, k)
+			}
+		}
+	}
 	r := StatementReturn{
 		Status: status,
 		Attr: StatementReturnAttrs{
 			Modifier: arrai.ToStrings(t.MustGet("modifier").Export(ctx)),
-			Nvp:      arrai.ToStringInterfaceMap(t.MustGet("nvp").Export(ctx)),
+			Nvp:      arrai.ToStringInterfaceMap(nvp),
 		},
 	}
 
